@@ -89,4 +89,13 @@ theorem legacy_prune_takes_no_manifest_lock :
     ∧ Gen.ManifestSteps.ftp_PruneTableFiles.any (fun e => e == "call:tryFileLock" || e == "call:lock" || e == "call:locker.LockManifest") = false := by
   decide
 
+/-- the journal manifest's `Update` (the model's journal writer): the same `updateWithChecker`, no `tryFileLock` per call,
+and a checker that compares gcGen only — no `checkNewSpecsPresent` -/
+theorem journal_update_shape :
+    Gen.ManifestSteps.journalManifestUpdate.contains "call:updateWithChecker" = true
+    ∧ Gen.ManifestSteps.journalManifestUpdate.contains "call:tryFileLock" = false
+    ∧ Gen.ManifestSteps.journalManifestUpdate.contains "closure:if:contents.gcGen != upstream.gcGen" = true
+    ∧ Gen.ManifestSteps.journalManifestUpdate.any (fun e => e == "closure:call:checkNewSpecsPresent" || e == "call:checkNewSpecsPresent") = false := by
+  decide
+
 end DoltVerif.Tie.ManifestSteps
